@@ -39,10 +39,10 @@ impl GroupC {
             _ => "C20",
         };
         let cases = match (id, tier) {
-            ("C16", Tier::Quick) => 700,
-            ("C16", Tier::Thorough) => 12000,
-            (_, Tier::Quick) => 1500,
-            (_, Tier::Thorough) => 25000,
+            ("C16", Tier::Quick) => 1500,
+            ("C16", Tier::Thorough) => 15000,
+            (_, Tier::Quick) => 4000,
+            (_, Tier::Thorough) => 40000,
         };
         let strings = match id {
             "C02" | "C03" => Some(ExprStream::new(tier, seed, 6)),
